@@ -37,6 +37,16 @@ CHECKS = {
   "Seeded search over mechanism configurations (endpoint headers, values, payload templates, rule-level overrides on a second rule sharing the prototype) and request histories whose members differ in at most one component; both worlds run the real decision service in a bubble; any per-request difference between the worlds is a soundness violation, any remote call during 24 repetitions of an allowed request inside the ttl is an effectiveness violation. Evidence over sampled configurations and histories, not a proof.",
   "Trusts: the parties are deterministic functions of URL, body and X-*/Authorization/Cookie headers; jti/iat/nbf/exp normalisation; map iteration order cannot be seeded, so effectiveness is decided by 24 repetitions; Vary/HTTP-level cache key not judged.",
   "DESIGN.md section 3 C11"),
+"C01": ("pipeline-sim",
+  "whole-request simulation through the three real entry points with simulated remote parties and a seeded per-party fault plan (incl. injected panics); oracle = ground truth computed from the simulator's own decisions; shrinking and replay",
+  "Seeded search over pipelines (all mechanism types, conditions true/false/erroring, continue-on-error, error pipelines), requests and fault plans, executed end to end through the real decision HTTP chain, the real Envoy gRPC server (bufconn) and the real proxy chain with a real upstream server on net.Pipe; the implication 'positive answer or upstream hit => every mandatory step really succeeded' is judged against what the simulator itself decided. Evidence over sampled executions, not a proof.",
+  "Trusts: one fault outcome per party and request; content-altering faults excluded (C19); the converse (expected allow => positive) is a reach probe only, guarded by a vacuity check (fault-free positives must exist for every entry point).",
+  "DESIGN.md section 3 C01"),
+"C04": ("pipeline-sim",
+  "same executions as C01 with a chain-focused generator; oracle = reference model of the authenticator fallback chain over simulator-known outcome classes (none / ok / rejected / remote fault), incl. which remote parties may be contacted",
+  "Seeded search over authenticator chains (all six types, catalogue- and rule-level allow_fallback_on_error), requests with none/valid/invalid/malformed credentials per kind and transport faults of the identity-provider parties; the winning subject, a failed chain and 'no later authenticator's party contacted after the chain stopped' are judged against the reference model. Evidence over sampled executions, not a proof.",
+  "Trusts: each authenticator kind reads its own credential carrier so its class is known; malformed credentials are not judged; a remote fault counts like a rejection.",
+  "DESIGN.md section 3 C04"),
 }
 
 PENDING = [p for p in ["C01","C04","C07","C10","C11","C16","C17","C18","C19"] if p not in CHECKS]
@@ -64,6 +74,7 @@ def main():
       {"name":"repo-history","path":"/verif/harness/internal/rules","serves_properties":["C06"],"kind_free_text":"sequential reference-model conformance over seeded operation histories (real factory, processor, repository, radix tree)"},
       {"name":"repo-sched","path":"/verif/harness/internal/rules","serves_properties":["C07"],"kind_free_text":"seeded cooperative scheduler (simsync) + race detector + porcupine over the instrumented repository"},
       {"name":"time-sim","path":"/verif/harness/internal/verifsim/timesim","serves_properties":["C10","C11"],"kind_free_text":"synctest bubble (fake clock) around the whole decision service built from its real constructors, simnet simulated parties with fault plans, real in-memory cache or Redis-semantics stub"},
+      {"name":"pipeline-sim","path":"/verif/harness/internal/verifsim/pipesim","serves_properties":["C01","C04"],"kind_free_text":"whole-request simulation: real entry points (decision HTTP, Envoy gRPC over bufconn, proxy with real upstream on net.Pipe) + simnet parties with per-party fault plans + ground-truth evaluator"},
     ]
     m = {
      "version":1,
